@@ -92,3 +92,14 @@ Fixpoint ctx_of (tab : list (text * text)) (k : text) : option text :=
   | [] => None
   | (k', v) :: r => if text_eqb k k' then Some v else ctx_of r k
   end.
+
+(* Harness entry point: the raw slices are printed as (length, kind, index) plus one flag saying that every raw text is
+   the source text at [index, index + length). *)
+Definition harness_ph (c : text * list (text * text) * list pmatch)
+  : text * list (bool * (Z * Z) * (Z * Z)) * list (nat * bool * nat) * bool :=
+  let '(src, tab, ms) := c in
+  let '(out, ts, rs) := ph_process (ctx_of tab) src ms in
+  (out,
+   map (fun t => (ts_templated t, ts_src t, ts_tpl t)) ts,
+   map (fun r => (length (rs_raw r), rs_templated r, rs_idx r)) rs,
+   forallb (fun r => text_eqb (rs_raw r) (pslice src (rs_idx r) (rs_idx r + length (rs_raw r)))) rs).
